@@ -133,6 +133,75 @@ pub fn sites(_tier: Tier) -> Vec<Site> {
                 }
             }));
     }
+    // every code placed at every offset of the field between two runs of a fill byte, every 1-byte mutation of
+    // every wire form, and every 2-byte mutation over a 24-symbol alphabet: only the wire form itself decodes
+    {
+        let codes: Vec<Vec<u8>> = tracks.iter().filter_map(|(_, t)| wire(t)).map(|w| w.into_iter().take_while(|b| *b != 0).collect()).collect();
+        let mut cases: Vec<Vec<u8>> = vec![];
+        for c in &codes {
+            for fill in [0u8, b' ', 0xff, b'0', b'_'] {
+                for shift in 0..=(6 - c.len()) {
+                    let mut v = vec![fill; shift];
+                    v.extend_from_slice(c);
+                    v.resize(6, fill);
+                    cases.push(v);
+                    // and with NULs behind the code but the fill in front
+                    let mut v2 = vec![fill; shift];
+                    v2.extend_from_slice(c);
+                    v2.resize(6, 0);
+                    cases.push(v2);
+                }
+            }
+            let mut w = c.clone();
+            w.resize(6, 0);
+            for pos in 0..6 {
+                for b in 0..=255u8 {
+                    let mut v = w.clone();
+                    v[pos] = b;
+                    cases.push(v);
+                }
+            }
+            const A: [u8; 24] = [0, 1, b' ', b'0', b'1', b'9', b'A', b'B', b'R', b'X', b'Y', b'Z', b'a', b'b', b'r', b'x', b'y', b'z', b'_', 0x7f, 0x80, 0xa0, 0xfe, 0xff];
+            for p in 0..6 {
+                for q in (p + 1)..6 {
+                    for a in A {
+                        for b in A {
+                            let mut v = w.clone();
+                            v[p] = a;
+                            v[q] = b;
+                            cases.push(v);
+                        }
+                    }
+                }
+            }
+        }
+        cases.sort();
+        cases.dedup();
+        let cases = Arc::new(cases);
+        let by_wire = by_wire.clone();
+        sites.push(Site::new("placements-and-mutations", cases.len() as u64,
+            "every code at every offset of the field between runs of {00, space, ff, '0', '_'} (fill in front, fill or NUL behind); every 1-byte mutation (256 values) and every 2-byte mutation over 24 symbols of every wire form",
+            move |i, acc| {
+                acc.eval();
+                let bytes = &cases[i as usize];
+                let replay = || json!({"site": "placements-and-mutations", "index": i, "bytes": hex(bytes)});
+                match guard(|| Track::read_le(&mut Cursor::new(&bytes[..]))) {
+                    Err(p) => acc.violate(i, "C14|decode|panic".into(), format!("{}: {p}", hex(bytes)), replay()),
+                    Ok(Err(_)) => {
+                        if by_wire.contains_key(bytes) {
+                            acc.violate(i, format!("C14|wire-form-rejected|{}", by_wire[bytes]), format!("{} is the wire form of {}", hex(bytes), by_wire[bytes]), replay());
+                        } else {
+                            acc.class("rejected");
+                            acc.nontrivial();
+                        }
+                    },
+                    Ok(Ok(t)) => match wire(&t) {
+                        Some(w) if w[..] == bytes[..] => { acc.class("exact-wire-form"); acc.nontrivial(); },
+                        _ => acc.violate(i, format!("C14|aliasing|{t:?}"), format!("{} ({:?}) decodes to {t:?}, whose wire form is different", hex(bytes), String::from_utf8_lossy(bytes)), replay()),
+                    },
+                }
+            }));
+    }
     // the 6 bytes delivered in pieces: same track (or the same refusal) as from a plain cursor
     {
         let mut forms: Vec<Vec<u8>> = tracks.iter().filter_map(|(_, t)| wire(t)).collect();
